@@ -30,12 +30,12 @@ Example C11_nonvacuous :
 Proof. vm_compute. repeat split; reflexivity. Qed.
 
 (* ---- over every reachable state (Proofs/ReidxInv.v): after a successful convert_local_fn_to_import of the
-   local function id with an import of fingerprint fp, outside D02 / D06 / D26 the id (which every former use
+   local function id with an import of fingerprint fp, outside D02 the id (which every former use
    carries) is mapped to the index at which the emitted module has exactly that import *)
 Theorem C11_converted_function_id_designates_the_import :
   forall m id fp m' r it, wf m -> Reindex.step m (LocalToImport id fp) = Ok (m', r) ->
   nthN (s_items (m_f m)) id = Some it -> is_local it = true ->
-  okD02 SF m' = true -> okD06 SF m' = true -> okD26 SF m' = true ->
+  okD02 SF m' = true ->
   forall l mp, index_space (m_f m') = Ok (l, mp) ->
   exists q, lookup mp id = Some q /\ nthN (space_of_model m' l SF) q = Some fp.
 Proof. exact l2i_binding. Qed.
